@@ -58,6 +58,7 @@ func c18R1(c *Ctx) {
 	info := fn.Info()
 	// the three annotation-presence flags
 	var flags []string
+	var flagObjs []types.Object
 	ast.Inspect(fn.Decl.Body, func(nd ast.Node) bool {
 		as, ok := nd.(*ast.AssignStmt)
 		if !ok || as.Tok != token.DEFINE || len(as.Lhs) != 2 || len(as.Rhs) != 1 {
@@ -66,6 +67,7 @@ func c18R1(c *Ctx) {
 		if ix, ok := ast.Unparen(as.Rhs[0]).(*ast.IndexExpr); ok && strings.HasSuffix(exprString(ix.X), ".Annotations") {
 			if o := identObjSel(info, ix.Index); o != nil && (o.Name() == "PodNetworks" || o.Name() == "PodNetworksRequest" || o.Name() == "PodNetworking") {
 				flags = append(flags, exprString(as.Lhs[1]))
+				flagObjs = append(flagObjs, identObj(info, as.Lhs[1]))
 			}
 		}
 		return true
@@ -98,60 +100,78 @@ func c18R1(c *Ctx) {
 		return true
 	})
 	c.Floor("C18.R1", "mutation sites in podWebhook", 5, len(sites))
-	for i, s := range sites {
-		c.Require("C18.R1", "mutation ("+names[i]+") only for pods in scope", fn, s, scope, nil)
-	}
-	// out-of-scope returns are Allowed (no patch)
-	for _, spec := range []struct{ cond, what string }{
-		{"pod.Spec.HostNetwork", "host-network pod"},
-		{"types.IgnoredByTerway(pod.Labels)", "ignored pod"},
-	} {
-		ok := false
-		ast.Inspect(fn.Decl.Body, func(nd ast.Node) bool {
-			if is, isIf := nd.(*ast.IfStmt); isIf && exprString(is.Cond) == spec.cond && len(is.Body.List) == 1 {
-				if r, isR := is.Body.List[0].(*ast.ReturnStmt); isR && len(r.Results) == 1 {
-					if call, isC := ast.Unparen(r.Results[0]).(*ast.CallExpr); isC && calleeName(info, call) == "Allowed" {
-						ok = true
-					}
-				}
+	// (the presence flags as objects: after a helper was expanded they may live in an inner block)
+	scopeF := func(at ast.Node) func(e *FactEngine) (*Formula, error) {
+		return func(e *FactEngine) (*Formula, error) {
+			base, err := e.Expr("!pod.Spec.HostNetwork && !types.IgnoredByTerway(pod.Labels) && len(pod.Spec.Containers) != 0", at.Pos())
+			if err != nil {
+				return nil, err
 			}
-			return true
-		})
-		c.Check(ok, "C18.R1", spec.what+" is admitted without a patch", p.Pos(fn.Decl), fn.Key(), "if "+spec.cond+" { return webhook.Allowed(…) }", "not found")
-	}
-	// and these returns come before any mutation
-	q := NewPathQuery(p, fn, nil)
-	for i, s := range sites {
-		for _, cond := range []string{"pod.Spec.HostNetwork", "types.IgnoredByTerway(pod.Labels)"} {
-			test := containsNode(func(k ast.Node) bool {
-				e, ok := k.(ast.Expr)
-				return ok && exprString(e) == cond
-			})
-			w := q.Escapes(nil, isExactly(s), test, nil)
-			c.Check(w == nil, "C18.R1", "mutation ("+names[i]+") after the test "+cond, p.Pos(s), fn.Key(), "must-pass: test → mutation", "path: "+p.describePath(w))
+			var fl []*Formula
+			for _, o := range flagObjs {
+				if o == nil {
+					return nil, fmt.Errorf("a presence flag is not a variable")
+				}
+				fl = append(fl, e.Cond(identFor(info, o)))
+			}
+			two := mkOr(mkAnd(fl[0], fl[1]), mkOr(mkAnd(fl[0], fl[2]), mkAnd(fl[1], fl[2])))
+			return mkAnd(base, mkNot(two)), nil
 		}
 	}
-	// conflicting annotations are denied
+	for i, s := range sites {
+		c.RequireF("C18.R1", "mutation ("+names[i]+") only for pods in scope", fn, s, scope, scopeF(s))
+	}
+	// out-of-scope pods are admitted as they are: a response other than Allowed (a denial, a patch) is
+	// given only to a pod in scope — as a fact at the return, whatever form the scope tests have (an if
+	// per test, a helper that classifies the pod). Which pods get a plain Allowed is R9's business.
+	nResp := 0
+	for _, r := range declReturns(fn.Decl.Body) {
+		if len(r.Results) != 1 {
+			continue
+		}
+		call, isC := ast.Unparen(r.Results[0]).(*ast.CallExpr)
+		if !isC {
+			continue
+		}
+		switch calleeName(info, call) {
+		case "Denied", "Patched", "PatchResponseFromRaw":
+			nResp++
+			c.Require("C18.R1", "a denial or a patch only for a pod in scope ("+calleeName(info, call)+")", fn, r, "!pod.Spec.HostNetwork && !types.IgnoredByTerway(pod.Labels)", nil)
+		}
+	}
+	c.Floor("C18.R1", "denials and patches in podWebhook", 3, nResp)
+	// conflicting annotations are denied: some Denied response is given exactly for "two or more
+	// present" (a fact at that return); that every such pod is denied follows from the scope
+	// requirement at the mutation sites, which excludes the conflict
 	okDeny := false
-	ast.Inspect(fn.Decl.Body, func(nd ast.Node) bool {
-		if is, isIf := nd.(*ast.IfStmt); isIf && len(is.Body.List) == 1 {
-			s := exprString(is.Cond)
-			if strings.Contains(s, a) && strings.Contains(s, b) && strings.Contains(s, d) {
-				if r, isR := is.Body.List[0].(*ast.ReturnStmt); isR {
-					if call, isC := ast.Unparen(r.Results[0]).(*ast.CallExpr); isC && calleeName(info, call) == "Denied" {
-						// the condition is exactly "two or more present"
-						e := NewFactEngine(p, fn)
-						want, err := e.ParseReq(fmt.Sprintf("(%[1]s && %[2]s) || (%[1]s && %[3]s) || (%[2]s && %[3]s)", a, b, d), is.Pos())
-						if err == nil && equivalent(e, e.Cond(is.Cond), want) {
-							okDeny = true
-						}
-					}
-				}
-			}
+	var denyAt ast.Node = fn.Decl
+	for _, r := range declReturns(fn.Decl.Body) {
+		if len(r.Results) != 1 {
+			continue
 		}
-		return true
-	})
-	c.Check(okDeny, "C18.R1", "two or more network annotations are denied", p.Pos(fn.Decl), fn.Key(), "if pairwise-conjunction of the three flags { return Denied }", "condition is not equivalent to 'at least two present'")
+		call, isC := ast.Unparen(r.Results[0]).(*ast.CallExpr)
+		if !isC || calleeName(info, call) != "Denied" {
+			continue
+		}
+		e := NewFactEngine(p, fn)
+		var fl []*Formula
+		bad := false
+		for _, o := range flagObjs {
+			if o == nil {
+				bad = true
+				break
+			}
+			fl = append(fl, e.Cond(identFor(info, o)))
+		}
+		if bad {
+			break
+		}
+		two := mkOr(mkAnd(fl[0], fl[1]), mkOr(mkAnd(fl[0], fl[2]), mkAnd(fl[1], fl[2])))
+		if ok, _, err := e.FactsAt(r, two); err == nil && ok {
+			okDeny, denyAt = true, r
+		}
+	}
+	c.Check(okDeny, "C18.R1", "two or more network annotations are denied", p.Pos(denyAt), fn.Key(), "a Denied response at which 'at least two of the three annotations are present' is a fact", "no denial is tied to the conflict")
 	// unmatched pods outside CRD mode: default network only appended otherwise
 	crd := constLit(p, "types", "IPAMTypeCRD")
 	n := 0
@@ -797,7 +817,7 @@ func c18R9(c *Ctx) {
 		n++
 		c.RequireAnyOf("C18.R9", "podWebhook: Allowed only for a pod the webhook does not own", fn, r, alts)
 	}
-	c.Floor("C18.R9", "plain Allowed responses in podWebhook", 3, n)
+	c.Floor("C18.R9", "plain Allowed responses in podWebhook", 1, n)
 }
 
 // R10: the network definition's status follows its spec in both directions. `changed` — which decides
